@@ -67,6 +67,13 @@ fn reprs(attrs: &[syn::Attribute]) -> Vec<String> {
         .collect()
 }
 
+fn cfgs(attrs: &[syn::Attribute]) -> Vec<String> {
+    attrs.iter().filter(|a| a.path.is_ident("cfg")).map(|a| a.tokens.to_string().replace(' ', "")).collect()
+}
+fn is_pub(v: &syn::Visibility) -> bool {
+    matches!(v, syn::Visibility::Public(_))
+}
+
 fn collect(items: &[Item], out: &mut Vec<Value>) {
     for it in items {
         match it {
@@ -77,8 +84,12 @@ fn collect(items: &[Item], out: &mut Vec<Value>) {
                     .enumerate()
                     .map(|(i, f)| json!([f.ident.as_ref().map(|x| x.to_string()).unwrap_or(i.to_string()), ty_str(&f.ty)]))
                     .collect();
-                out.push(json!({"kind":"struct","name":s.ident.to_string(),"repr":reprs(&s.attrs),"fields":fields,
+                out.push(json!({"kind":"struct","name":s.ident.to_string(),"repr":reprs(&s.attrs),"fields":fields,"pub":is_pub(&s.vis),"cfg":cfgs(&s.attrs),
                                 "generics": s.generics.params.iter().map(|p| p.to_token_stream().to_string().replace(' ', "")).collect::<Vec<_>>()}));
+            }
+            Item::Enum(en) => {
+                out.push(json!({"kind":"enum","name":en.ident.to_string(),"repr":reprs(&en.attrs),"pub":is_pub(&en.vis),"cfg":cfgs(&en.attrs),
+                                "variants": en.variants.iter().map(|v| v.ident.to_string()).collect::<Vec<_>>()}));
             }
             Item::Fn(f) => {
                 let abi = f.sig.abi.as_ref().map(|a| a.name.as_ref().map(|n| n.value()).unwrap_or_else(|| "C".into()));
@@ -117,6 +128,36 @@ fn collect(items: &[Item], out: &mut Vec<Value>) {
     }
 }
 
+/// `split`: the input consists of `pub mod dK { .. }` modules (one definition each) plus common
+/// items; writes `<out>/dK.rs` (expansion as ordinary source), `<out>/common.rs`, and
+/// `<out>/layout.json` = { "dK": layout table of what the generator produced for dK }.
+fn split(src: &str, out: &str) {
+    let file: syn::File = syn::parse_str(src).expect("input parses");
+    std::fs::create_dir_all(out).unwrap();
+    let mut common = TokenStream::new();
+    let mut layouts = serde_json::Map::new();
+    let mut mods = vec![];
+    for item in file.items {
+        match item {
+            Item::Mod(m) if m.content.is_some() => {
+                let name = m.ident.to_string();
+                let inner: TokenStream = m.content.unwrap().1.into_iter().map(|i| i.into_token_stream()).collect();
+                let (full, generated) = expand_file(&inner.to_string());
+                std::fs::write(format!("{}/{}.rs", out, name), full.to_string()).unwrap();
+                let gfile: syn::File = syn::parse2(generated).expect("expansion parses as a file");
+                let mut tbl = vec![];
+                collect(&gfile.items, &mut tbl);
+                layouts.insert(name.clone(), Value::Array(tbl));
+                mods.push(name);
+            }
+            other => common.extend(other.into_token_stream()),
+        }
+    }
+    std::fs::write(format!("{}/common.rs", out), common.to_string()).unwrap();
+    std::fs::write(format!("{}/layout.json", out), serde_json::to_string(&Value::Object(layouts)).unwrap()).unwrap();
+    std::fs::write(format!("{}/mods.json", out), serde_json::to_string(&mods).unwrap()).unwrap();
+}
+
 fn main() {
     let args: Vec<String> = std::env::args().collect();
     if args.len() < 4 {
@@ -124,6 +165,18 @@ fn main() {
         std::process::exit(2);
     }
     let src = std::fs::read_to_string(&args[2]).expect("read input");
+    if args[1] == "scan" {
+        // plain source file (no expansion): table of its structs / enums / fns
+        let file: syn::File = syn::parse_str(&src).expect("source parses");
+        let mut out = vec![];
+        collect(&file.items, &mut out);
+        std::fs::write(&args[3], serde_json::to_string(&out).unwrap()).unwrap();
+        return;
+    }
+    if args[1] == "split" {
+        split(&src, &args[3]);
+        return;
+    }
     let (full, generated) = expand_file(&src);
     match args[1].as_str() {
         "expand" => std::fs::write(&args[3], full.to_string()).unwrap(),
